@@ -6,7 +6,7 @@ PROPERTY = "C02"
 CLAUSES = ["C02.once", "C02.value", "C02.processed", "C02.retrigger", "C02.term", "C02.crash"]
 RULE = ("every process program of <= D executed instructions over {return, raise, value-carrying timeout(0|1), wait on a "
         "shared event catching/not catching, succeed/fail it, register a plain callback on it, join a peer catching/not "
-        "catching, spawn; a third alphabet adds falsy return values (0, '', False), a BaseException that is not an Exception and the exported StopProcess; two configurations attach no probe to process events} with 2 initial and <= 4 processes; non-trivial = some event had >= 2 registered waiters besides "
+        "catching, spawn; a third alphabet adds falsy return values (0, '', False), a BaseException that is not an Exception and the exported StopProcess; a fourth one payloads with a liberal == and exception objects as success values; one long run (1200 processed events consumed in a row); two configurations attach no probe to process events} with 2 initial and <= 4 processes; non-trivial = some event had >= 2 registered waiters besides "
         "the probe, or failed; distinct = distinct observation logs")
 ASSUMPTIONS = [
     "reference 'handled' rule: a failed event is handled iff at least one process is waiting on it when it is processed "
@@ -17,6 +17,8 @@ OPS = ["ret", "raise", ("T", 0), ("T", 1), ("W", 0, True), ("W", 0, False), ("S"
        "Sp", ("CB", 0)]
 # third alphabet: falsy return values and exceptions that are not Exception subclasses
 OPS3 = ["ret", "ret0", "raise", "raiseB", "raiseSP", ("T", 0), ("T", 1), ("J", True), ("J", False), ("W", 0, True), ("S", 0), "Sp"]
+# fourth alphabet: payloads with a liberal ==, exception objects as values of successful events
+OPS4 = ["ret", ("T", 0), ("W", 0, True), ("S", 0), ("SX", 0), ("F", 0), ("J", True), ("CB", 0)]
 OPS2 = ["ret", "raise", ("T", 0), ("W", 0, True), ("W", 1, False), ("S", 0), ("F", 0), ("S", 1), ("F", 1), ("J", True), ("CB", 1)]
 MAP = {"once": "C02.once", "value": "C02.value", "processed": "C02.processed", "retrigger": "C02.retrigger",
        "term": "C02.term", "crash": "C02.crash"}
@@ -27,12 +29,56 @@ def plan(tier, seed):
     d = 6 if quick else 7
     cfgs = [dict(depth=d, ops=1, nproc=2), dict(depth=d, ops=2, nproc=2), dict(depth=d - 1, ops=1, nproc=3), dict(depth=d - 1, ops=3, nproc=2),
             # process events without any callback of ours: a terminated process must be processed even when nobody waits yet
-            dict(depth=d - 1, ops=1, nproc=2, noprobe=1), dict(depth=d - 1, ops=3, nproc=2, noprobe=1)]
+            dict(depth=d - 1, ops=1, nproc=2, noprobe=1), dict(depth=d - 1, ops=3, nproc=2, noprobe=1),
+            dict(depth=d - 1, ops=4, nproc=2, liberal=1), dict(depth=d - 1, ops=4, nproc=2),
+            # one process consuming 1200 already processed events in a row, then 1200 fresh ones (a single long execution)
+            dict(endurance=1200)]
     return {"cfgs": cfgs, "budget": None, "bound": "D<=%d with 2 initial processes (alphabets: one / two shared events; falsy returns + non-Exception BaseException at D-1), D<=%d with 3; <=4 processes" % (d, d - 1)}
 
 
+def endurance(cfg):
+    from onl.sim import Environment
+    res = Result()
+    n = cfg["endurance"]
+    env = Environment()
+    got = []
+
+    def worker(i):
+        yield env.timeout(0)
+        return i
+
+    def gatherer(ws, done):
+        yield env.timeout(1)            # by now every worker and `done` have been processed
+        for w in ws:
+            got.append((yield w))
+        for _ in range(n):
+            got.append((yield done))
+        for i in range(n):
+            got.append((yield env.timeout(0, value=-i)))
+    ws = [env.process(worker(i)) for i in range(n)]
+    done = env.timeout(0, value="done")
+    g = env.process(gatherer(ws, done))
+    res.ev("C02.value", 3 * n); res.ev("C02.once", 3 * n)
+    res.nontrivial = True
+    try:
+        env.run()
+    except BaseException as e:  # noqa
+        from mc.net import _where
+        res.bad("C02.crash", "long-run:run-raised-%s@%s" % (type(e).__name__, _where(e)), "after %d values: %r" % (len(got), e))
+        return res
+    res.digest = (len(got),)
+    want = list(range(n)) + ["done"] * n + [-i for i in range(n)]
+    if got != want:
+        k = next((i for i in range(min(len(got), len(want))) if got[i] != want[i]), min(len(got), len(want)))
+        res.bad("C02.value", "long-run:waiter-received-a-wrong-value", "%d of %d values, first deviation at %d" % (len(got), len(want), k))
+    return res
+
+
 def execute(ch, cfg):
-    k = KC.K(ch, {1: OPS, 2: OPS2, 3: OPS3}[cfg["ops"]], cfg["depth"], nproc=cfg["nproc"], reaction=False, probe_procs=not cfg.get("noprobe")).run()
+    if cfg.get("endurance"):
+        return endurance(cfg)
+    k = KC.K(ch, {1: OPS, 2: OPS2, 3: OPS3, 4: OPS4}[cfg["ops"]], cfg["depth"], nproc=cfg["nproc"], reaction=False, probe_procs=not cfg.get("noprobe"),
+             liberal_values=bool(cfg.get("liberal"))).run()
     res = Result()
     res.digest = k.digest()
     viol, nt = KC.check_delivery(k)
